@@ -9,6 +9,12 @@ CLAIMS = {
    note="Trusted: Lean kernel; harness; Go regexp engine (modelled at line level, tied exhaustively on small arrangements); go/parser+printer and astutil import removal are below the model (syntax-tree equality after clean is an end-to-end oracle, not a theorem).",
    technique="Lean 4 proof by induction over item lists / line lists + differential correspondence against the real regexps",
  ),
+ "C07": dict(
+   text="Theorems (Lean 4, all call sequences / component structures / query strings / interleavings, by induction, nothing bounded): status_counts (after any Track sequence an in-range id shows min(1,#calls) in bool mode and #calls mod 2^32 in count mode, = #calls below 2^32; other slots 0; out-of-range calls change nothing: track_ignores_out_of_range, status_ignores_out_of_range), track_report / track_report_component (the /track answer satisfies the property predicate: invalid component list refused, otherwise per requested component exactly its ids as a multiset with those counts, total=|ids|, covered=#(count>0), rate=covered*100/total or 0, items ordered by the requested key, invalid order = order 0), metrics_total (the fixed /metrics never panics, refuses only an unknown current component, prints the totals of /track for every target component), atomic_interleave (any interleaving of atomic Track steps of any number of callers ends in the state of the sequential concatenation, hence exact counts). Witness theorems metricsPreFix_div_zero / metricsPreFix_index_oob document the two panics of the pinned template (fixed by fix_c07.diff). The model is loop-faithful to the rendered template and tied to it by compiling the real Values.Render output for 4 variants x random component structures and comparing every status dump, /track and /metrics answer (panics included), with the Lean predicate judged on every implementation answer.",
+   design_ref="DESIGN.md §6 C07, Appendix A.5, §7 D-C07-1/2",
+   note="Trusted: Lean kernel; harness (generators, tie canonicalisation, Go-side md5/name/label oracle); Go compiler and runtime, sync/atomic, net/http, encoding/json (A7). Without race only sequential callers are claimed. The md5 version string and label texts are checked Go-side, not modelled.",
+   technique="Lean 4 proof by induction over call sequences / lists / permutations + differential correspondence against the compiled rendered runtime",
+ ),
 }
 
 NOT_APPLICABLE = {}
